@@ -1,7 +1,8 @@
 (* C05 — address pools neither leak nor miscount.  Statements only; proofs in Proofs/*.v. *)
 From Coq Require Import NArith List.
 From Verif Require Import Base.Word Model.PoolMap Model.Geometry Model.PoolSpec Model.Bitmap Model.Epoch
-  Proofs.GeometryProofs Proofs.BitmapProofs Proofs.EpochProofs.
+  Model.FreeList
+  Proofs.GeometryProofs Proofs.BitmapProofs Proofs.EpochProofs Proofs.FreeListProofs.
 Import ListNotations.
 Local Open Scope N_scope.
 
@@ -117,3 +118,43 @@ Example C05_epoch_guard_satisfiable :
   let s := erun w_base 30 32 1 [Alloc 1; Alloc 2; Advance; Renew 1; Release 2; Alloc 3; Advance; Renew 1; Renew 3] in
   ages_ok s = true /\ EpochProofs.outp s (Alloc 4) = OErr 1 /\ asize (e_subs s) = 2.
 Proof. exact epoch_guard_example. Qed.
+
+(* ---------- free-list pools (one parametric Model), every universe without duplicates, every history ---- *)
+(* exhaustion only when every unit is held or was declared unavailable (DHCP DECLINE) *)
+Theorem C05_freelist_exhausted_only_if_full : forall univ ops, NoDup univ -> forall h,
+  FreeListProofs.outp (frun univ ops) (Alloc h) = OErr 1 ->
+  forall u, In u univ -> (exists h', aget h' (f_alloc (frun univ ops)) = Some u) \/ In u (f_unav (frun univ ops)).
+Proof. exact freelist_exhausted_only_if_full. Qed.
+Print Assumptions C05_freelist_exhausted_only_if_full.
+
+Theorem C05_freelist_release_returns : forall univ ops, NoDup univ -> forall h u,
+  aget h (f_alloc (frun univ ops)) = Some u ->
+  In u (f_avail (FreeListProofs.next (frun univ ops) (Release h))) /\
+  forall h', aget h' (f_alloc (FreeListProofs.next (frun univ ops) (Release h))) <> Some u.
+Proof. exact freelist_release_returns. Qed.
+Print Assumptions C05_freelist_release_returns.
+
+Theorem C05_freelist_nonempty_serves : forall univ ops h, f_avail (frun univ ops) <> [] ->
+  exists u, FreeListProofs.outp (frun univ ops) (Alloc h) = OUnit u.
+Proof. exact freelist_nonempty_serves. Qed.
+Print Assumptions C05_freelist_nonempty_serves.
+
+(* conservation: every unit of the universe is on the free list, held, or declared unavailable *)
+Theorem C05_freelist_no_leak : forall univ ops, NoDup univ ->
+  FInv (frun univ ops) /\ FCons (frun univ ops) /\ f_idem (frun univ ops) = true /\ f_univ (frun univ ops) = univ.
+Proof. exact frun_all. Qed.
+Print Assumptions C05_freelist_no_leak.
+
+(* pppoe.IPPool before fix 9686c62: the first address of a session that allocates twice is lost *)
+Theorem C05_pppoe_leak_refuted_before_fix :
+  let s := fold_left FreeListProofs.next [Alloc 1; Alloc 1] (finit false [10; 11]) in
+  aget 1 (f_alloc s) = Some 11 /\
+  FreeListProofs.outp (fold_left FreeListProofs.next [Alloc 1] (finit false [10; 11])) (Alloc 1) = OUnit 11 /\
+  FreeListProofs.outp s (Alloc 2) = OErr 1 /\ (forall h, aget h (f_alloc s) <> Some 10).
+Proof. exact freelist_nonidem_refuted. Qed.
+Print Assumptions C05_pppoe_leak_refuted_before_fix.
+
+Example C05_freelist_nonvacuous :
+  FreeListProofs.outp (frun [10; 11] [Alloc 1; Alloc 2]) (Alloc 3) = OErr 1 /\
+  FreeListProofs.outp (frun [10; 11] [Alloc 1; Alloc 2; Release 1]) (Alloc 3) = OUnit 10.
+Proof. split; vm_compute; reflexivity. Qed.
